@@ -690,7 +690,8 @@ func (c *Ctx) playPipelineByFolding(N int) (string, int, bool) {
 		{values: [][2]int64{{1, 2}}, key: &SpecKey{Letter: "B"}, symbol: "MinorSeventh", root: [2]int{7, int(QMajor)}, base: &[2]int{12, int(QPerfect)}},
 		{values: [][2]int64{{1, 4}}, key: &SpecKey{Letter: "C", Acc: -1}, symbol: "MajorTriad", root: [2]int{1, int(QPerfect)}},
 		{values: [][2]int64{{1, 4}}, key: &SpecKey{Letter: "E", Acc: -1, Minor: true}, symbol: "MinorSeventh", root: [2]int{1, int(QPerfect)}},
-		{values: [][2]int64{{1, 1}}},
+		// back to the key the piece opened in (a signature that was written before is written again), on a rest
+		{values: [][2]int64{{1, 1}}, key: &SpecKey{Letter: "D"}},
 	}
 	keyV := func(k SpecKey) fval {
 		return fval{fields: map[string]fval{"Name": {k: constant.MakeInt64(names[k.Letter])}, "Accidental": {k: constant.MakeInt64(accs[map[int]string{0: "Natural", 1: "Sharp", -1: "Flat"}[k.Acc]])}, "Minor": {k: constant.MakeBool(k.Minor)}}}
